@@ -242,7 +242,9 @@ type canceller struct {
 
 // Preempt implements [jsonrpc2.Preempter].
 func (c *canceller) Preempt(ctx context.Context, req *jsonrpc.Request) (result any, err error) {
-	if req.Method == notificationCancelled {
+	// Only a notification can be a cancellation: a call that misuses the
+	// method name is left to the handler, which rejects it as an invalid request.
+	if req.Method == notificationCancelled && !req.IsCall() {
 		var params CancelledParams
 		if err := internaljson.Unmarshal(req.Params, &params); err != nil {
 			return nil, err
